@@ -1,12 +1,14 @@
 package main
 
 import (
+	"bytes"
 	"fmt"
 	"os"
 	"os/exec"
 	"path/filepath"
 
 	"github.com/ipfs/go-cid"
+	carv2 "github.com/ipld/go-car/v2"
 )
 
 // C05 producer.  Four streams, all derived from c.R:
@@ -18,12 +20,35 @@ import (
 //  4. damaged copies of finished files (only model = implementation for the two checkers)
 // A session is non-trivial when at least two distinct blocks were put.
 
+// c05ReadCar lists roots and blocks of a CARv1/CARv2 produced by the tool itself
+func c05ReadCar(file []byte) ([]cid.Cid, []Blk) {
+	br, err := carv2.NewBlockReader(bytes.NewReader(file))
+	if err != nil {
+		panic(err)
+	}
+	var blks []Blk
+	for {
+		b, err := br.Next()
+		if err != nil {
+			break
+		}
+		blks = append(blks, Blk{b.Cid(), b.RawData()})
+	}
+	return br.Roots, blks
+}
+
 func c05GenOpts(r *RNG) wOpts {
 	o := genWOpts(r)
 	o.v1 = r.Chance(15)
 	if r.Chance(25) {
 		// MaxIndexCidSize around the CID lengths in play (34 = CIDv0, 36 = CIDv1 sha2-256, 37/38 = longer codec varints)
 		o.maxCid = uint64(pick(r, []int{33, 34, 35, 36, 37, 38, 40, 68}))
+	}
+	if r.Chance(5) {
+		o.codec = 0 // ApplyOptions: the default codec
+	}
+	if r.Chance(4) {
+		o.maxCid = 0 // ApplyOptions: the default size
 	}
 	if r.Chance(4) {
 		o.codec = uint64(pick(r, []int{0x55, 0x0402, 0x0300})) // not an index codec: Finalize must fail (0 would mean "default")
@@ -212,6 +237,34 @@ func init() {
 			}
 		}
 
+		// ---- 1c. CIDs at the edge of what an index record can carry (32 MiB wide: digest + 8-byte offset), with
+		// MaxIndexCidSize raised above it.  The block is built here, the case line carries only its description.
+		{
+			const capCid = 32<<20 - 8 // largest CID ApplyOptions lets into an index
+			type wc struct {
+				kind, n, code uint64
+				storeID     bool
+			}
+			cases := []wc{
+				{0, 32<<20 - 7, 0x00, true},      // identity digest one byte wider than a record allows
+				{1, 32<<20 - 7, 0x12, false},     // the same with a (fabricated) sha2-256 code
+				{1, capCid - 7 + 1, 0x00, true},  // CID one byte over the cap (1+1+1+4 bytes of prefix): refused
+			}
+			if c.Thorough {
+				// a CID of exactly the cap is stored (64 MiB file) and its index reads back
+				cases = append(cases, wc{0, capCid - 7, 0x00, true}, wc{1, capCid - 7, 0x12, false},
+					wc{1, 32<<20 - 7, 0x00, true}, wc{0, 32<<20 - 7, 0x12, false}, wc{0, 40 << 20, 0x00, true})
+			}
+			for _, w := range cases {
+				o := defaultWOpts
+				o.maxCid = 64 << 20
+				o.storeID = w.storeID
+				in := VL{VN(w.kind), o.val(), VN(w.n), VN(w.code)}
+				c.Emit("finalwide", in, c05RunWideImpl(c, w.kind, o, w.n, w.code), true)
+				c.Count("wide-cid")
+			}
+		}
+
 		// ---- 2. car filter
 		nFlt := 25 * c.Scale
 		for i := 0; i < nFlt; i++ {
@@ -293,6 +346,56 @@ func init() {
 			in := VL{o.val(), VB(file), hok, hdrs, VN(1)}
 			c.Emit("finalfile", in, c05RunFinalFileImpl(c, file), true)
 			c.Count("frontend:car-create")
+		}
+
+		// ---- 3b. car get-dag: a blockstore session (v2) / the root module's selective writer (v1) driven by a
+		// traversal; content not predicted here (C15/C19), the output must be a finished archive all the same
+		nGd := 8 * c.Scale
+		for i := 0; i < nGd; i++ {
+			r := c.R.Fork()
+			dir, err := os.MkdirTemp(c.Work, "gd")
+			if err != nil {
+				panic(err)
+			}
+			src := filepath.Join(dir, "src")
+			os.MkdirAll(filepath.Join(src, "d"), 0o755)
+			for j := 0; j < 1+r.Intn(4); j++ {
+				name := filepath.Join(src, fmt.Sprintf("f%d", j))
+				if r.Chance(40) {
+					name = filepath.Join(src, "d", fmt.Sprintf("g%d", j))
+				}
+				os.WriteFile(name, r.Bytes(pick(r, []int{0, 3, 700, 40000, 600000})), 0o644)
+			}
+			in := filepath.Join(dir, "in.car")
+			if msg, err := exec.Command(c.CarBin, "create", "--version", fmt.Sprint(pick(r, []int{1, 2})), "-f", in, src).CombinedOutput(); err != nil {
+				panic(fmt.Sprintf("car create failed: %v %s", err, msg))
+			}
+			inBytes, _ := os.ReadFile(in)
+			roots, blks := c05ReadCar(inBytes)
+			version := pick(r, []int{1, 2, 2})
+			out := filepath.Join(dir, "out.car")
+			args := []string{"get-dag", "--version", fmt.Sprint(version), in}
+			switch r.Intn(3) {
+			case 0: // root taken from the input's header
+				c.Count("get-dag:root-from-header")
+			case 1:
+				args = append(args, roots[0].String())
+				c.Count("get-dag:explicit-root")
+			default: // the DAG below some inner block (a file, a chunk, a sub-directory)
+				args = append(args, pick(r, blks).Cid.String())
+				c.Count("get-dag:inner-root")
+			}
+			args = append(args, out)
+			if msg, err := exec.Command(c.CarBin, args...).CombinedOutput(); err != nil {
+				panic(fmt.Sprintf("car get-dag failed: %v %s", err, msg))
+			}
+			file, _ := os.ReadFile(out)
+			os.RemoveAll(dir)
+			o := defaultWOpts
+			o.v1 = version == 1
+			hok, hdrs := c05FileTables(file)
+			c.Emit("finalfile", VL{o.val(), VB(file), hok, hdrs, VN(1)}, c05RunFinalFileImpl(c, file), true)
+			c.Count("frontend:car-get-dag")
 		}
 
 		// ---- 4. damaged finished files: the two checker models against the real checkers
